@@ -8,7 +8,11 @@ mkdir -p lean/SfntV/Generated evidence
 (cd extract && go build -o /tmp/verif_extract_setup . && /tmp/verif_extract_setup /repo "$(pwd)/../lean/SfntV/Generated"; rm -f /tmp/verif_extract_setup)
 python3 gen_registry.py
 # build the property modules of every claimed property (the proof obligations) and the driver
-MODS=$(python3 -c "from checkcfg import PROPS; print(' '.join(sorted({m for p in PROPS.values() for m in p['modules']})))")
+MODS=$(python3 -c "
+import json
+from checkcfg import PROPS
+claimed = [c['property_id'] for c in json.load(open('MANIFEST.json'))['checks']]
+print(' '.join(sorted({m for p in claimed for m in PROPS[p]['modules']})))")
 (cd lean && lake build $MODS sfntv-driver)
 cp /repo/go.sum harness/go.sum
 (cd harness && go build -tags verif -o /dev/null .)
